@@ -34,6 +34,11 @@ RAC = {
     'wasm_api': dict(crate='harper-wasm', attach='harper-wasm/src/lib.rs', file='wasm_api.rs', test='rac_wasm_api', function='harper_wasm::Linter::{lint, apply_suggestion, ignore_lint, export/import_ignored_lints, import/export_words, set_lint_config_from_json}, to_title_case, to_json/from_json'),
     'mask_merge': dict(crate=CORE, attach=S + 'mask/mod.rs', file='mask.rs', test='rac_mask_merge', function='Mask::merge_whitespace_sep'),
     'prose_offsets': dict(crate='harper-comments', attach='harper-comments/src/comment_parser.rs', file='prose_offsets.rs', test='rac_prose_offsets', function='CommentParser::parse (tree-sitter mask + comment parsers) and Markdown::parse: prose words at their true offsets'),
+    'c04_jsdoc_fence': dict(crate='harper-comments', attach='harper-comments/src/comment_parser.rs', file='prose_offsets.rs', test='rac_c04_jsdoc_fence', function='JsDoc::parse (a code fence inside a JS/TS doc comment)'),
+    'c04_tilde_fence': dict(crate='harper-comments', attach='harper-comments/src/comment_parser.rs', file='prose_offsets.rs', test='rac_c04_tilde_fence', function='unit::line_is_code_fence (CommonMark ~~~ fences)'),
+    'c04_go_directive': dict(crate='harper-comments', attach='harper-comments/src/comment_parser.rs', file='prose_offsets.rs', test='rac_c04_go_directive', function='Go::parse (//go: directive lines that are not the first line of the comment group)'),
+    'c04_javadoc_pre': dict(crate='harper-comments', attach='harper-comments/src/comment_parser.rs', file='prose_offsets.rs', test='rac_c04_javadoc_pre', function='JavaDoc::parse / HtmlParser (<pre> blocks)'),
+    'c04_javadoc_return': dict(crate='harper-comments', attach='harper-comments/src/comment_parser.rs', file='prose_offsets.rs', test='rac_c04_javadoc_return', function='JavaDoc::parse (block tag marking of `@return <prose>`)'),
     'lhs_prose_offsets': dict(crate='harper-literate-haskell', attach='harper-literate-haskell/src/lib.rs', file='lhs.rs', test='rac_lhs_prose_offsets', function='LiterateHaskellParser (masker + parsers::Mask::parse + Markdown): prose words at their true offsets'),
     'html_prose_offsets': dict(crate='harper-html', attach='harper-html/src/lib.rs', file='html.rs', test='rac_html_prose_offsets', function='HtmlParser (tree-sitter text nodes + parsers::Mask::parse): prose words at their true offsets'),
     'typst_prose_offsets': dict(crate='harper-typst', attach='harper-typst/src/lib.rs', file='typst.rs', test='rac_typst_prose_offsets', function='Typst parser (typst_translator, offset_cursor): prose words at their true offsets'),
